@@ -292,8 +292,8 @@ CHECKS["C01"] = {
     "text": "The property itself is decided per program and world, on the real output: the evaluation function emitted by uigen for a generated binding program is compiled "
             "(g++ -std=c++17 with -fsanitize=address,undefined) against the API model and executed in worlds of the referenced objects; its value is compared with the "
             "value model/Sem.v (a big-step evaluator of the AST in an object world, written from docs/language.md: 32-bit int with undefined overflow, wrapping uint, "
-            "truncating / and %, lazy && || ?:, if/else, switch with fall-through / break / default anywhere, let/const scoping, return; integer literal sub-expressions "
-            "in Z) gives to the source program in the same world, whenever that value is defined. Proofs (closed under the global context) fix the reference semantics "
+            "truncating / and %, IEEE-754 doubles (SpecFloat: total + - * /, unordered NaN, truncating casts), lazy && || ?:, if/else, switch with fall-through / break / "
+            "default anywhere, let/const scoping, return; integer literal sub-expressions in Z) gives to the source program in the same world, whenever that value is defined. Proofs (closed under the global context) fix the reference semantics "
             "on the points the statement names: int arithmetic is exact and in range or undefined, uint wraps, division by zero / INT_MIN % -1 / bad shifts / null "
             "dereference are undefined, && || ?: are lazy, translation-time folding agrees with the run-time meaning on literals (+ - * / % & | ^); let/const scoping -- "
             "after any statement that is not a declaration exactly the variables visible before are visible again (C01_partial_semantics_scope), and in the model of "
